@@ -10,8 +10,8 @@ target('c15', ['harness/c15_reuse.cpp'])
 def c15_jobs(tier):
     q = tier == 'quick'
     return [job('reuse-plain', 'c15', 'plain', threads=1, shards=4 if q else 12, timeout=7200),
-            # asan: asserts live, LeakSanitizer on (exceptions thrown in the middle of a solve must not leak), same scripts, every 2nd / 8th history
-            job('reuse-asan',  'c15', 'asan',  threads=1, shards=6 if q else 12, timeout=14400, args=['--stride=2'] if q else ['--stride=16'])]
+            # asan: asserts live, LeakSanitizer on (exceptions thrown in the middle of a solve must not leak), same scripts, every 5th / 17th history
+            job('reuse-asan',  'c15', 'asan',  threads=1, shards=6 if q else 12, timeout=14400, args=['--stride=5'] if q else ['--stride=17'])]   # strides coprime with the shard counts (cases are sharded by idx % shards)
 
 # Oracle strength notes:
 #  * "fresh object" = same constructor arguments; after a rebuild step the fresh object is rebuilt with the *latest* matrix only (a rebuild
